@@ -8,13 +8,13 @@ use std::time::{Duration, Instant};
 
 use crate::cancel::Cancel;
 use crate::coroutine_impl::{
-    current_cancel_data, run_coroutine, Coroutine, CoroutineImpl, EventSource,
+    current_cancel_data, run_coroutine, Coroutine, CoroutineImpl, EventSource, EventSubscriber,
 };
 use crate::join::JoinHandle;
 use crate::scoped::spawn_unsafe;
 use crate::sync::Mutex;
 use crate::sync::{AtomicOption, Blocker};
-use crate::yield_now::yield_with;
+use generator::co_yield_with;
 
 #[cfg(not(may_verif))]
 use may_queue::mpsc::Queue;
@@ -113,7 +113,19 @@ impl EventSender<'_> {
         let cancel = current_cancel_data();
         cancel.check_cancel();
         self.extra.store(extra, Ordering::Relaxed);
-        yield_with(self);
+        // Don't go through `yield_with` here: when a cancel arrives after the
+        // check above, its user space shortcut would return without sending the
+        // event (and leave a stale `Canceled` para behind), so the bottom half
+        // would run on its own, concurrently with the poller. Handle such a
+        // cancel like one that arrives while we are suspended: the event is
+        // sent, the bottom half gets processed and the next API call panics.
+        let r = unsafe {
+            std::mem::transmute::<*const (dyn EventSource + '_), *mut (dyn EventSource + 'static)>(
+                self as &dyn EventSource,
+            )
+        };
+        co_yield_with(EventSubscriber::new(r));
+        cancel.clear();
     }
 }
 
